@@ -631,7 +631,8 @@ async fn run_case(addr: SocketAddr, certs: &Certs, t: &[&str]) -> anyhow::Result
             // connects and uses another topic
             let secs: u64 = t[2].parse()?;
             let (ns, tp) = fresh();
-            let conn = raw(addr, certs).await?;
+            // (the peer that reads nothing stays connected - it pings - so that the stall lasts as long as the scenario says)
+            let conn = raw_connect_keepalive(addr, &certs.client("ca.der"), (&certs.client("localhost.der"), &certs.client("localhost.key.der"))).await?;
             let mut stalled = raw_stream(&conn).await?;
             stalled.send(reg_frame("RS", &ns, &tp)).await?;
             let a = answer(&mut stalled).await;
@@ -686,7 +687,8 @@ async fn run_case(addr: SocketAddr, certs: &Certs, t: &[&str]) -> anyhow::Result
         "stall" | "stall1" => {
             let n: usize = t[2].parse()?;
             let (ns, tp) = fresh();
-            let conn = raw(addr, certs).await?;
+            // (it stays connected - it pings - so the stall lasts to the end of the scenario)
+            let conn = raw_connect_keepalive(addr, &certs.client("ca.der"), (&certs.client("localhost.der"), &certs.client("localhost.key.der"))).await?;
             // a subscriber that registers and then never reads
             let mut stalled = raw_stream(&conn).await?;
             stalled.send(reg_frame("RS", &ns, &tp)).await?;
